@@ -185,7 +185,12 @@ func (g *gen) arg(t byte, zero bool) string {
 		}
 		return g.boolS()
 	case 'p':
-		return hxd(g.nonEmpty()) + " " + hxd(g.bytes())
+		out := hxd(g.nonEmpty()) + " " + hxd(g.bytes())
+		for g.chance(0.2) {
+			// AddUserProp is variadic: several pairs in one call
+			out += " " + hxd(g.nonEmpty()) + " " + hxd(g.bytes())
+		}
+		return out
 	}
 	panic("arg type")
 }
